@@ -227,6 +227,13 @@ func NewBlockResultsMeta(results *consensus.BlockResults) (*BlockResultsMeta, er
 	if err := cbor.Unmarshal(results.Meta, &meta); err != nil {
 		return nil, fmt.Errorf("malformed block results metadata: %w", err)
 	}
+	// The metadata may come from an untrusted source, make sure there are no missing results as
+	// everything that processes them (e.g. hashing) dereferences every entry.
+	for _, txResult := range meta.TxsResults {
+		if txResult == nil {
+			return nil, fmt.Errorf("malformed block results metadata: missing transaction result")
+		}
+	}
 
 	return &meta, nil
 }
